@@ -506,7 +506,7 @@ int main(int argc, char** argv)
                 gsim_ctl::run_search(w, mix64(base + idx * 0xD1B54A32D192ED03ull));
                 gsim_ctl::RunStats cs = gsim_ctl::last_stats();
                 uint64_t extra[16] = {0};
-                for (int d = 1; d < 8; d++) extra[d] = gsim_ctl::fault_fired(d);
+                for (int d = 1; d < 9; d++) extra[d] = gsim_ctl::fault_fired(d);
                 if (write(pfd[1], &cs, sizeof cs) != (ssize_t)sizeof cs) _exit(2);
                 if (write(pfd[1], extra, sizeof extra) != (ssize_t)sizeof extra) _exit(2);
                 int np = gsim_ctl::probe_count();
@@ -544,7 +544,7 @@ int main(int argc, char** argv)
                         (unsigned long long)idx, code);
                 return 2;
             }
-            for (int d = 1; d < 8; d++) fork_faults[d] += extra[d];
+            for (int d = 1; d < 9; d++) fork_faults[d] += extra[d];
         } else {
             gsim_ctl::run_search(w, mix64(base + idx * 0xD1B54A32D192ED03ull));
         }
@@ -619,7 +619,7 @@ int main(int argc, char** argv)
             first = false;
         }
     printf("},\"faults\":{");
-    for (int d = 1; d < 8; d++)
+    for (int d = 1; d < 9; d++)
         printf("%s\"%s\":%llu", d > 1 ? "," : "", gsim_ctl::dkind_name(d),
                (unsigned long long)(fork_each ? fork_faults[d] : gsim_ctl::fault_fired(d)));
     printf("},\"probes\":{");
